@@ -31,6 +31,7 @@ const preludeSorts = `(declare-sort GStr 0)
 (declare-fun seq_at (BSeq Int) Int)
 (declare-fun seq_cat (BSeq BSeq) BSeq)
 (declare-fun seq_sub (BSeq Int Int) BSeq)
+(declare-fun seq_unit (Int) BSeq)
 (declare-fun seqof ((Array Int Int) Int Int) BSeq)
 (declare-datatypes ((Loc 0)) (((mkloc (ltyp Int) (lref Int) (lcell Int)))))
 (define-fun nullloc () Loc (mkloc 0 0 0))
@@ -61,6 +62,7 @@ const preludeAxioms = `(assert (forall ((r Int)) (! (=> (<= r 0) (existed r)) :p
 (assert (forall ((s GStr)) (! (= (seq_len (seq_of_str s)) (slen_s s)) :pattern ((seq_of_str s)))))
 (assert (forall ((s GStr) (i Int)) (! (= (seq_at (seq_of_str s) i) (sat s i)) :pattern ((seq_at (seq_of_str s) i)))))
 (assert (forall ((s GStr) (i Int)) (! (=> (and (<= 0 i) (< i (slen_s s))) (and (<= 0 (sat s i)) (<= (sat s i) 255))) :pattern ((sat s i)))))
+(assert (forall ((b Int)) (! (and (= (seq_len (seq_unit b)) 1) (= (seq_at (seq_unit b) 0) b)) :pattern ((seq_unit b)))))
 (assert (forall ((a BSeq) (b BSeq)) (! (= (seq_len (seq_cat a b)) (+ (seq_len a) (seq_len b))) :pattern ((seq_cat a b)))))
 (assert (forall ((a BSeq) (b BSeq) (i Int)) (! (= (seq_at (seq_cat a b) i) (ite (< i (seq_len a)) (seq_at a i) (seq_at b (- i (seq_len a))))) :pattern ((seq_at (seq_cat a b) i)))))
 (assert (forall ((a BSeq)) (! (= (seq_cat a seq_empty) a) :pattern ((seq_cat a seq_empty)))))
@@ -76,6 +78,29 @@ const preludeAxioms = `(assert (forall ((r Int)) (! (=> (<= r 0) (existed r)) :p
 (assert (forall ((a Int) (b Int)) (! (=> (and (>= a 0) (>= b 0)) (and (<= 0 (band a b)) (<= (band a b) a) (<= (band a b) b))) :pattern ((band a b)))))
 (assert (forall ((a Int) (b Int)) (! (=> (and (>= a 0) (>= b 0)) (and (<= a (bor a b)) (<= b (bor a b)) (<= (bor a b) (+ a b)))) :pattern ((bor a b)))))
 `
+
+func seqNDecls() string {
+	var sb strings.Builder
+	var sizes []int
+	for n := range seqNSizes {
+		sizes = append(sizes, n)
+	}
+	sort.Ints(sizes)
+	for _, n := range sizes {
+		ints := strings.TrimSpace(strings.Repeat("Int ", n))
+		fmt.Fprintf(&sb, "(declare-fun seq%d (%s) BSeq)\n", n, ints)
+		// seqof(a, o, n) = seqN(a[o] .. a[o+n-1])
+		var sels, vars, decl []string
+		for i := 0; i < n; i++ {
+			sels = append(sels, fmt.Sprintf("(select a (+ o %d))", i))
+			vars = append(vars, fmt.Sprintf("x%d", i))
+			decl = append(decl, fmt.Sprintf("(x%d Int)", i))
+		}
+		fmt.Fprintf(&sb, "(assert (forall ((a (Array Int Int)) (o Int)) (! (= (seqof a o %d) (seq%d %s)) :pattern ((seqof a o %d)))))\n", n, n, strings.Join(sels, " "), n)
+		fmt.Fprintf(&sb, "(assert (forall (%s) (! (= (seq_len (seq%d %s)) %d) :pattern ((seq%d %s)))))\n", strings.Join(decl, " "), n, strings.Join(vars, " "), n, n, strings.Join(vars, " "))
+	}
+	return sb.String()
+}
 
 func (e *Engine) buildPrelude(solver string) string {
 	var sb strings.Builder
@@ -109,6 +134,7 @@ func (e *Engine) buildPrelude(solver string) string {
 	e.mu.Unlock()
 	fmt.Fprintf(&sb, "(define-fun iface_eq ((a Iface) (b Iface)) Bool (ite (and (= (ityp a) %d) (= (ityp b) %d)) (fp.eq (ifp a) (ifp b)) (= a b)))\n", f64tag, f64tag)
 	sb.WriteString(preludeAxioms)
+	sb.WriteString(seqNDecls())
 	// spec functions
 	for _, n := range e.specs.SFOrder {
 		sf := e.specs.SFuncs[n]
